@@ -11,9 +11,59 @@ use std::sync::Arc;
 use std::task::{Context, Poll, RawWaker, RawWakerVTable, Waker};
 
 /// Item type: a distinguishable id. `class()` drives filter tables and sort keys.
+/// Every live `It` (including every clone the library makes) is counted per thread, so that a history can check
+/// that nothing it handed to the library is still alive once every vector, stream and diff is gone (C20).
+pub struct Live;
+thread_local! { pub static LIVE: std::cell::Cell<i64> = const { std::cell::Cell::new(0) }; }
+pub fn live() -> i64 {
+    LIVE.with(|l| l.get())
+}
+impl Live {
+    fn new() -> Live {
+        LIVE.with(|l| l.set(l.get() + 1));
+        Live
+    }
+}
+impl Clone for Live {
+    fn clone(&self) -> Self {
+        Live::new()
+    }
+}
+impl Drop for Live {
+    fn drop(&mut self) {
+        LIVE.with(|l| l.set(l.get() - 1));
+    }
+}
+impl std::fmt::Debug for Live {
+    fn fmt(&self, _f: &mut std::fmt::Formatter<'_>) -> std::fmt::Result {
+        Ok(())
+    }
+}
+impl PartialEq for Live {
+    fn eq(&self, _o: &Self) -> bool {
+        true
+    }
+}
+impl Eq for Live {}
+impl std::hash::Hash for Live {
+    fn hash<H: std::hash::Hasher>(&self, _h: &mut H) {}
+}
+impl PartialOrd for Live {
+    fn partial_cmp(&self, _o: &Self) -> Option<std::cmp::Ordering> {
+        Some(std::cmp::Ordering::Equal)
+    }
+}
+impl Ord for Live {
+    fn cmp(&self, _o: &Self) -> std::cmp::Ordering {
+        std::cmp::Ordering::Equal
+    }
+}
 #[derive(Clone, Debug, PartialEq, Eq, Hash, PartialOrd, Ord)]
-pub struct It(pub u32);
+pub struct It(pub u32, Live);
 impl It {
+    pub fn new(v: u32) -> It {
+        It(v, Live::new())
+    }
     pub fn class(&self, k: u32) -> usize {
         (self.0 % k) as usize
     }
